@@ -10,7 +10,7 @@ git -C /repo worktree remove --force $WT >/dev/null 2>&1
 git -C /repo worktree add -q --detach $WT HEAD || exit 2
 trap 'git -C /repo worktree remove --force $WT >/dev/null 2>&1' EXIT
 DEMO=$(ls $SD/*_test.go | head -1)
-PKG=$(head -1 $DEMO | sed -n 's#.*Copy into \([^ ]*\).*#\1#p'); PKG=${PKG%/}
+PKG=$(head -3 $DEMO | grep -o 'Copy into:\? *[^ ]*' | head -1 | sed 's/Copy into:\? *//'); PKG=${PKG%/}
 RUN=$(grep -o "\-run '[^']*'" $DEMO | head -1 | sed "s/-run '//; s/'//")
 [ -z "$RUN" ] && RUN=$(grep -o '^func Test[A-Za-z0-9_]*' $DEMO | head -1 | sed 's/func //')
 echo "seed=$SD pkg=$PKG run=$RUN"
